@@ -236,21 +236,28 @@ def run_property(prop, tier):
     # refuted obligations, one verdict per obligation name (instances = paths / table rows)
     for name, insts in refuted.items():
         verdict = None
-        for vc, res in insts:
+        # witnesses are extracted for the first instances of a name only; the others share its verdict
+        with_w = [(vc, res) for vc, res in insts if vc.get("witness") or vc.get("reproduced")] or insts[:1]
+        was_known = False
+        for vc, res in with_w:
             reproduced, rec = replay_vc(prop, vc, res, driver)
             rec["reproduced"] = reproduced
             k = [f for f in known["findings"] if finding_matches(f, prop, vc)]
             if reproduced and k:
+                was_known = True
                 if k[0] not in known_reported:
                     known_reported.append(k[0])
-                    lines.append(f"KNOWN-FINDING: property={prop} {k[0]['what']} [{vc['name']}]")
+                    lines.append(f"KNOWN-FINDING: property={prop} {k[0]['what']}")
                 continue
-            obligations += 1
             if reproduced:
                 verdict = ("violation", vc, rec)
                 break
             if verdict is None:
                 verdict = ("unreproduced", vc, rec)
+        if was_known and (verdict is None or verdict[0] == "unreproduced"):
+            continue
+        if verdict is not None:
+            obligations += 1
         if verdict is None:
             continue
         kind, vc, rec = verdict
